@@ -37,7 +37,7 @@ def bump(v):
                 w = dict(v); w[k] = n; return w, True
     return v, False
 
-RESULT_FIELDS = ["w", "fp", "eqs", "ret", "r2", "c1", "lambda", "cofactor_inv", "gen"]
+RESULT_FIELDS = ["w", "fp", "eqs", "ret", "post", "r2", "c1", "lambda", "cofactor_inv", "gen"]
 def corrupt(ev):
     if ev.get("op") in ("load", "reset", "gt_reset"): return None      # values ENTER the machine here: nothing to contradict
     for f in RESULT_FIELDS:
@@ -146,6 +146,8 @@ def main():
     res += selftest_B(b, "pairing", "Trace_Pairing", "bls12_381", 150)
     res += selftest_B(b, "h2c", "Trace_H2C", "bls12_381_g1", 30)
     res += selftest_B(b, "config", "Trace_Config", "t_bls12_381", 0)
+    res += selftest_B(b, "polybig", "Trace_Poly", "bls12_381_fr", 40, rec_args=["--maxlog", "10"])
+    res += selftest_B(b, "curve", "Trace_Curve", "bls12_381_g1", 30, rec_args=["--profile", "msm"])
     res += selftest_A(b, "field", "MC_Field", "f13", "arith")
     res += selftest_A(b, "curve", "MC_Curve", "sw13a", "arith") if False else []
     res += selftest_A(b, "bigint", "MC_BigInt", "1", "arith") if False else []
